@@ -18,7 +18,7 @@
      E_del E id            : E without id. *)
 From Agdb Require Import Bytes DbValue Graph DbModel Search Queries Revisions QStepProofs
   KvProofs KvDbProofs KvSelectProofs IndexProofs IndexDbProofs IndexDb2Proofs IndexDb3Proofs IndexDb4Proofs
-  IndexInvProofs IndexExample.
+  IndexInvProofs IndexExample DbInvProofs QueryInvProofs SearchLiveProofs HistoryInvProofs HistoryExamples.
 Open Scope Z_scope.
 
 (* ---- the invariant holds initially and is kept by every property mutation of DbImpl
@@ -139,3 +139,46 @@ Example C11_nonvacuous :
     QOk 1 [ {| e_id := 0; e_from := 0; e_to := 0; e_values := [(c11_key, DU64 2)] |} ].
 Proof. exact c11_example. Qed.
 Print Assumptions C11_nonvacuous.
+
+(* ---- all histories -------------------------------------------------------------------------
+   FULL STATEMENT (property text): for ANY history of property changes, element removals (with the
+   cascade over incident edges), index creation and removal, AND ROLLED-BACK TRANSACTIONS, every index
+   search returns exactly the matching elements and the listing reports the exact counts.
+
+   Inv / query_ok / traversal_live / all_succeed: see Props/C10.v (same joint invariant).
+   PROVED: C11_transaction_partial (idx_inv at every state inside a running transaction, the partial
+   state of a failing query included), C11_history_partial (after every history from db_new in which
+   no query fails: idx_inv, the exact multiset answer of every index search, the exact listing).
+   MISSING for the full statement: (1) `traversal_live rv_fixed` (graph traversals return only
+   existing elements; C14/C17) is a hypothesis; (2) ROLLBACK: the undo commands (undo_one) are not
+   shown to keep idx_inv, so states after a rolled-back failing query are not covered (C13). *)
+Theorem C11_transaction_partial :
+  traversal_live rv_fixed ->
+  forall d qs acc, Forall query_ok qs -> Inv d -> idx_inv (fst (fst (txn_run rv_fixed d qs acc))).
+Proof.
+  intros Ht d qs acc Hq Hd. apply Inv_index. exact (transaction_state_Inv rv_fixed Ht eq_refl d qs acc Hq Hd).
+Qed.
+Print Assumptions C11_transaction_partial.
+
+Theorem C11_history_partial :
+  traversal_live rv_fixed ->
+  forall qs, Forall query_ok qs -> all_succeed rv_fixed db_new qs ->
+  let d := exec_all rv_fixed db_new qs in
+  idx_inv d /\
+  (forall key ids value id, idx_find (indexes d) key = Some ids ->
+     count_occ Z.eq_dec (map snd (filter (fun p : dbvalue * Z => dbv_eqb (fst p) value) ids)) id =
+     if live d id then match kvs_value (vals d) id key with
+                       | Some v' => b2nat (dbv_eqb v' value)
+                       | None => 0%nat
+                       end
+     else 0%nat) /\
+  exec_select rv_fixed d SelectIndexes =
+    QOk (lenZ (indexes d))
+        [ {| e_id := 0; e_from := 0; e_to := 0;
+             e_values := map (fun ix : index => (fst ix, DU64 (N.of_nat (count_having d (fst ix))))) (indexes d) |} ].
+Proof. intros Ht. exact (history_indexes rv_fixed Ht eq_refl). Qed.
+Print Assumptions C11_history_partial.
+
+Example C11_history_nonvacuous : Forall query_ok c11_history /\ all_succeed rv_fixed db_new c11_history.
+Proof. exact c11_history_ok. Qed.
+Print Assumptions C11_history_nonvacuous.
